@@ -222,7 +222,15 @@ class HierDictDocument(DictDocument):
                 retval = self._doc_to_object(ctx, cls, inst, validator)
 
             else:
-                retval = self.from_serstr(cls, inst, self.binary_encoding)
+                if inst is not None and self.binary_encoding is None \
+                        and cls_attrs.encoding is BINARY_ENCODING_USE_DEFAULT \
+                        and not isinstance(inst, self.VALID_BINARY_SOURCES):
+                    # same as ByteArray below: without a text encoding, only
+                    # native binary data can be the contents of a file.
+                    raise ValidationError([key, inst])
+
+                retval = self._from_serstr_checked(cls, inst,
+                                                           self.binary_encoding)
 
         else:
             inst = self._parse(cls_attrs, inst)
